@@ -48,7 +48,8 @@ func c14LinesDecl(ignore bool) *decl.Decl {
 			{Field: "B", Long: "bool", Type: decl.TBool},
 		}}
 		top.Groups = []*decl.Group{{Field: "Grp", Name: "Grp", Opts: []*decl.Opt{{Field: "G", Long: "gopt", Type: decl.TString}}}}
-		top.Cmds = []*decl.Cmd{{Field: "Cmd", Name: "cmd", Opts: []*decl.Opt{{Field: "C", Long: "copt", Type: decl.TString}}}}
+		top.Cmds = []*decl.Cmd{{Field: "Cmd", Name: "cmd", Opts: []*decl.Opt{{Field: "C", Long: "copt", Type: decl.TString}}},
+			{Field: "Up", Name: "UpCmd", Opts: []*decl.Opt{{Field: "U", Long: "uopt", Type: decl.TString}}}}
 		top.SubOptional = true
 		d := &decl.Decl{Top: top}
 		if ignore {
@@ -66,13 +67,15 @@ var c14Long = map[string]string{
 	"<4096>":  strings.Repeat("x", 4096),
 	"<4097>":  strings.Repeat("x", 4097),
 	"<10000>": strings.Repeat("y", 10000),
+	"<4092>":  strings.Repeat("z", 4092), // "S = " + 4092 bytes = a line of exactly one read buffer
+	"<8188>":  strings.Repeat("w", 8188), // exactly two read buffers
 }
 
 // line alphabet: valid entries, headers, noise, faults
 var c14Lines = []string{
 	"S = a", "I = 5", "L = x", "M = k:1", "B = true", `S = "q z"`, "G = g", "C = c",
-	"[Application Options]", "[Grp]", "[cmd]",
-	"", "   ", "; c", "# c = 1", "; <4095>", "# <4096>", "S = <4097>", "; <10000>",
+	"[Application Options]", "[Grp]", "[cmd]", "[UpCmd]", "U = u",
+	"", "   ", "; c", "# c = 1", "; <4095>", "# <4096>", "S = <4097>", "; <10000>", "S = <4092>", "S = <8188>",
 	"nokey", `S = "abc`, "[open", "[]", "Zzz = 1", "I = x", "M = k:", "[Nope]", "  L  =  y  ",
 }
 
@@ -243,7 +246,7 @@ func init() {
 		ShardDepth: 4,
 		Body:       body,
 		Rule: "(i) every byte string of length <= 6 (quick) / <= 7 (thorough) over {[ ] = \" : ; # space LF CR a \\ 0xFF} read into a declaration whose option, ini-name and group are reachable over that alphabet (map option a, group a, ini-name aa); " +
-			"(ii) every file of <= 4 (quick) / <= 5 (thorough) lines over 28 lines: 8 valid entries (scalar, int, slice, map, bool, quoted, group and command options), 3 headers, 8 noise lines (empty, blanks, ; and # comments, 4095/4096/10000-byte comments, a 4097-byte value), " +
+			"(ii) every file of <= 4 (quick) / <= 5 (thorough) lines over 32 lines: 8 valid entries (scalar, int, slice, map, bool, quoted, group and command options), 3 headers, 8 noise lines (empty, blanks, ; and # comments, 4095/4096/10000-byte comments, a 4097-byte value) and 2 entries whose line is exactly one / two read buffers long (4096 / 8192 bytes), " +
 			"9 faults (no '=', bad quoting, open header, empty header, unknown option, unconvertible int, empty map value, unknown section, padded entry) x LF/CRLF x final newline present/absent; both with and without IgnoreUnknown; " +
 			"oracle: returns normally; reference reader: no fault => no error and the values the entries denote (noise and line ends change nothing); faults => the error is one of them, IniError carrying exactly its 1-based line or ErrUnknownGroup; the first syntax fault always wins; " +
 			"distinct = distinct (error class, fault list, assigned options)",
